@@ -32,11 +32,40 @@ def cases(tier, seed):
     for i in range(NCASES[tier] // 3):
         out.append(evo.gen_history(core.run_seed(seed, PROP + "-nodisc", i), inproc_only=True, discipline=False,
                                    features={"p_explicit": 0.5, "p_hidden": 0.0, "p_alias": 0.4}))
+    out.extend(crafted_cases())
+    return out
+
+
+def crafted_cases():
+    """Hand-written programs for an order of events the generator draws rarely: a LEGAL nested call (through an explicitly
+    versioned function, which is exempt from the check) reaches a function first, and the auto-versioned caller then calls
+    that function itself through a hidden route - which must still be refused."""
+    from sim import progen
+    from .c01 import _node
+    out = []
+    for variant in (0, 1):
+        if variant == 0:
+            nodes = [_node(0, "f0", calls=(1,)), _node(1, "f1", explicit="e1"), _node(2, "f2")]
+            nodes[1]["calls"].append({"to": 2, "form": "hidden"})    # (an explicitly versioned caller is not checked)
+            nodes[0]["calls"].append({"to": 2, "form": "hidden"})
+        else:
+            nodes = [_node(0, "f0", calls=(1,)), _node(1, "f1", calls=(3,)), _node(2, "f2"), _node(3, "f3", explicit="e3")]
+            nodes[3]["calls"].append({"to": 2, "form": "hidden"})
+            nodes[0]["calls"].append({"to": 2, "form": "hidden"})
+        for via in ("plain", "context", "partial", "ignore_result"):
+            prog = {"modules": ["m0"], "pkg": [0], "globals": [], "order": {}, "bshadow": {}, "nodes": [dict(n, calls=[dict(c) for c in n["calls"]]) for n in nodes]}
+            prog["order"]["0"] = progen.default_order(prog, 0)
+            steps = [{"op": "call", "node": 0, "x": 1, "via": via, "twice": True},
+                     {"op": "edit", "edit": {"kind": "const", "node": 2, "value": 7}, "delivery": "restart", "n": 2},
+                     {"op": "call", "node": 0, "x": 1, "via": via, "twice": False}]
+            out.append({"seed": 434300 + len(out), "prog": prog, "steps": steps, "cache": False, "crafted": "legal-nested-call-reaches-callee-first"})
     return out
 
 
 def execute(case):
     viol, log, stats = evo.execute_history(case, {"c14"})
+    if case.get("crafted"):
+        stats["crafted_histories"] = 1
     dg = core.digest_of(log)
     nontriv = any(s["op"] == "edit" for s in case["steps"]) and (stats.get("calls", 0) > 0 or stats.get("deps_states", 0) > 1)
     return {"violations": viol, "digest": dg, "nontrivial": nontriv, "stats": stats, "steps": len(log), "key": dg,
